@@ -210,6 +210,89 @@ def run(fx, tier):
         v.check(not incs, 'R-CGRAPH', 'async_sender::do_write:quota-monotone [%s]' % f.tu,
                 'the quota never grows inside the pass, so a later throttled request cannot overtake an earlier skipped one',
                 key='C06:R-CGRAPH:do_write:quota-grows', where=f.file)
+    # ------------------------------------------------------------------ R-PAIR: one stream write in flight
+    # Order on the wire is the order of the batches only if batches never overlap: the _write_in_progress flag is a
+    # two-state typestate (idle / writing) threaded through do_write(), the write completion and resend().
+    v.rule('R-PAIR', 'one stream write at a time: _write_in_progress is tested and set before every async_write, cleared first thing in the write completion, '
+           'restored on every path that leaves do_write()/resend() without writing; nobody else writes the flag')
+    FLAG = '_write_in_progress'
+
+    def flag_events(f, blocks):
+        """sequence of ('set', value) / ('write',) / ('guard', truth) along a block path"""
+        ev = []
+        for k, b_ in enumerate(blocks):
+            blk = f.blocks[b_]
+            for i_ in range(len(blk.elems)):
+                x = f.resolve({'k': 'elem', 'b': b_, 'i': i_})
+                if _writes_field(x, FLAG) == '=':
+                    ev.append(('set', peval(x.get('r'))))
+                elif isinstance(x, dict) and x.get('k') == 'call' and callee_name(x) == 'async_write' and callee_cls(x) == 'autoconnect_stream':
+                    ev.append(('write',))
+                elif isinstance(x, dict) and x.get('k') == 'call' and callee_name(x) == 'do_write' and callee_cls(x) == 'async_sender':
+                    ev.append(('do_write',))
+            if k + 1 < len(blocks) and blk.term and len(blk.succ) == 2:
+                cond = f.term_cond(b_)
+                pol = f.edge_kind(b_, blocks[k + 1])
+                if cond is not None and pol:
+                    from flow import split_logical
+                    for c2, p2 in split_logical(cond, pol):
+                        cm = comparison(origin(f, c2), p2)
+                        if cm and is_member_of_this(unwrap(cm[1]), FLAG) and cm[0] in ('==', '!='):
+                            ev.append(('guard', cm[0] == '!='))
+        return ev
+    n_pair = 0
+    for f in fx.fns:
+        if f.cls != 'async_sender' or f.lam or f.n not in ('do_write', 'operator()', 'resend'):
+            continue
+        if f.n == 'operator()' and len(f.params) < 2:
+            continue
+        for pi, (blocks, abort) in enumerate(f.paths(loop_bound=1)):
+            if abort:
+                continue
+            ev = flag_events(f, blocks)
+            inst = 'async_sender::%s:path%d [%s]' % (f.n, pi, f.tu)
+            if f.n == 'do_write':
+                n_pair += 1
+                if ('write',) in ev:
+                    k = ev.index(('write',))
+                    before = ev[:k]
+                    ok = ('guard', False) in before and ('set', 1) in before and ('set', 0) not in before[before.index(('set', 1)):] \
+                        and before.index(('guard', False)) < before.index(('set', 1))
+                    v.check(ok, 'R-PAIR', inst + ':write', 'a stream write is started only from the idle state, which is left (flag := true) before the write',
+                            key='C06:R-PAIR:do_write:write-from-idle', where=f.file)
+                elif ('set', 1) in ev:
+                    k = ev.index(('set', 1))
+                    v.check(('set', 0) in ev[k:], 'R-PAIR', inst + ':no-write', 'a path that claimed the writer state but starts no write gives it back',
+                            key='C06:R-PAIR:do_write:flag-restored', where=f.file)
+            elif f.n == 'operator()':
+                n_pair += 1
+                sets = [e for e in ev if e[0] in ('set', 'do_write', 'write')]
+                v.check(bool(sets) and sets[0] == ('set', 0), 'R-PAIR', inst, 'the write completion returns to the idle state before anything else',
+                        key='C06:R-PAIR:completion:flag-cleared-first', where=f.file)
+            else:
+                n_pair += 1
+                if ('set', 1) in ev:
+                    k = ev.index(('set', 1))
+                    rest = ev[k:]
+                    ok = ('set', 0) in rest and (('do_write',) not in rest or rest.index(('set', 0)) < rest.index(('do_write',))) \
+                        and ('guard', False) in ev[:k]
+                    v.check(ok, 'R-PAIR', inst, 'resend() claims the writer state only from idle and releases it before it restarts writing',
+                            key='C06:R-PAIR:resend:flag-paired', where=f.file)
+                else:
+                    v.check(('do_write',) not in ev and ('write',) not in ev, 'R-PAIR', inst, 'a resend() that found a write in progress starts nothing',
+                            key='C06:R-PAIR:resend:busy-path', where=f.file)
+    for f in fx.fns:
+        if not f.path_file().startswith('boost/mqtt5/'):
+            continue
+        for b_, i_, l_, x in f.elements():
+            x = f.resolve({'k': 'elem', 'b': b_, 'i': i_})
+            if isinstance(x, dict) and x.get('k') == 'assign' and isinstance(strip(x.get('l')), dict) and strip(x['l']).get('k') == 'mem' \
+                    and strip(x['l']).get('n') == FLAG:
+                v.check(f.cls == 'async_sender' and f.n in ('do_write', 'operator()', 'resend') and not f.lam, 'R-PAIR',
+                        'writer of %s: %s::%s [%s]' % (FLAG, f.cls, f.n, f.tu), 'only do_write(), the write completion and resend() change the writer state',
+                        key='C06:R-PAIR:flag-writer:%s::%s' % (f.cls, f.n), where='%s:%s' % (f.path_file(), l_))
+    v.expect_min('R-PAIR', 20, 'paths of do_write/completion/resend x TUs')
+
     # ------------------------------------------------------------------ R-ARITH: the ordering relation itself
     # prioritized requests first; otherwise serial-number arithmetic (RFC 1982): a before b iff
     # 0 < (b.serial - a.serial) mod 2^W < 2^(W-1).  The extracted CFG of write_req::operator< is folded over
